@@ -236,6 +236,16 @@ func (pg *peerGater) decayStats() {
 	}
 
 	now := time.Now()
+	// Trace events of a message that was still being validated when its sender
+	// disconnected re-create the sender's peerStats entry; no stream event will
+	// ever remove it again, so drop entries without a connected stream once
+	// their statistics have expired.
+	for p, st := range pg.peerStats {
+		if st.connected == 0 && st.expire.Before(now) {
+			delete(pg.peerStats, p)
+		}
+	}
+
 	for ip, st := range pg.ipStats {
 		if st.connected > 0 {
 			st.deliver *= pg.params.SourceDecay
